@@ -985,4 +985,3 @@ func (o *opaqueSigner) Sign(io.Reader, []byte, crypto.SignerOpts) ([]byte, error
 }
 
 var errPanicMarker = errors.New("panic marker")
-
